@@ -221,6 +221,55 @@ fn check_compress(run: &Arc<Run>, t: &Table, x: &[u8], lc: &mut LocalClasses) {
                 _ => return Err(("wrapper:decompress_into".into(), "decompress_into differs".into())),
             }
         }
+        // a growable buffer that is used again after a call on it failed: the failed call must not
+        // have left anything behind - the next call that fits the spare capacity the buffer had
+        // must succeed and append exactly its own output after what the buffer held before
+        if a.len() >= 2 {
+            let mut empty_c: Vec<u8> = Vec::with_capacity(16);
+            t.h.compress(&[], &mut empty_c).map_err(|_| ("compress-capacity".to_string(), "compress of the empty input fails".to_string()))?;
+            for bug in [false, true] {
+                let need = if bug { b.len() } else { a.len() };
+                if empty_c.len() + 1 > need {
+                    continue;
+                }
+                let mut v: Vec<u8> = Vec::with_capacity(2 + need - 1);
+                v.extend_from_slice(&[7, 7]);
+                // (Vec::with_capacity may hand out more than asked for: only run with the exact amount)
+                if v.capacity() != 2 + need - 1 {
+                    continue;
+                }
+                let first = if bug { t.h.compress_bug(x, &mut v).map(|_| ()) } else { t.h.compress(x, &mut v).map(|_| ()) };
+                if first.is_ok() {
+                    return Err(("compress-overflow-not-reported".into(), "succeeds in a Vec with one byte less spare capacity than needed".into()));
+                }
+                match t.h.compress(&[], &mut v) {
+                    Ok(_) => {}
+                    Err(_) => return Err(("reuse-after-failed-compress".into(), format!("after a compress call that failed for lack of space, compressing the empty input ({} bytes) into the same Vec ({} bytes of spare capacity before the failed call) fails", empty_c.len(), need - 1))),
+                }
+                if v[..2] != [7, 7] || v[2..] != empty_c[..] {
+                    return Err(("reuse-after-failed-compress".into(), format!("after a compress call that failed for lack of space the Vec holds {} instead of its old contents followed by the new output", vp_core::hex_short(&v))));
+                }
+            }
+            if x.len() >= 2 {
+                let mut v: Vec<u8> = Vec::with_capacity(2 + x.len() - 1);
+                v.extend_from_slice(&[7, 7]);
+                if v.capacity() == 2 + x.len() - 1 {
+                    if t.h.decompress(&a, &mut v).is_ok() {
+                        return Err(("decompress-overflow-not-reported".into(), "succeeds in a Vec with one byte less spare capacity than needed".into()));
+                    }
+                    // one symbol fewer than the spare capacity: must fit now
+                    let mut small: Vec<u8> = Vec::with_capacity(x.len() * 4 + 16);
+                    t.h.compress(&x[..x.len() - 1], &mut small).map_err(|_| ("compress-capacity".to_string(), "compress fails with ample capacity".to_string()))?;
+                    match t.h.decompress(&small, &mut v) {
+                        Ok(_) => {}
+                        Err(e) => return Err(("reuse-after-failed-decompress".into(), format!("after a decompress call that failed for lack of space, an output that fits the same Vec is refused: {:?}", e))),
+                    }
+                    if v[..2] != [7, 7] || v[2..] != x[..x.len() - 1] {
+                        return Err(("reuse-after-failed-decompress".into(), "after a decompress call that failed for lack of space the Vec does not hold its old contents followed by the new output".into()));
+                    }
+                }
+            }
+        }
         t.r.compress(x, &mut c).map_err(|_| ("reference-capacity".to_string(), "reference compress fails".to_string()))?;
         if b != c {
             return Err(("compress-bug-differs-from-reference".into(), format!("compress_bug {} vs reference {}", vp_core::hex_short(&b), vp_core::hex_short(&c))));
@@ -468,7 +517,7 @@ fn main() {
     run.assume("frequency vectors whose code depth exceeds the 24-bit representation make the table constructor refuse (panic); they are counted as 'table-rejected' and skipped - table construction limits are not part of the statement");
     run.assume("content classes: zeros, 'abc' repeated, byte counter, fixed LCG stream (a named constant member of the alphabet)");
     run.finish(
-        "per code table (built-in, shipped frequency file, 23 synthetic frequency vectors incl. two whose EOF code word is all zeros, so that input ending between two symbols decodes to EOF): all compressor inputs of length <=2, for the built-in and shipped tables every pair of symbols followed by one of 8 third symbols, every length 0..4096 x 4 content classes, every byte value repeated 1..64; all decompressor inputs of length <=2 (<=3 thorough) x every output capacity 0..8n+2 between canaries, every prefix / one-byte extension / byte substitution of valid streams; oracle: round trip for both output forms, the convenience wrappers (compress, compress_into, compress_into_vec, decompress, decompress_into, decompress_into_vec) agree with the buffer API, exact predicted lengths, byte identity with the C++ reference, equality with the reference whenever it decodes, capacity errors exactly when the output does not fit, no write past the buffer, termination (watchdog)",
+        "per code table (built-in, shipped frequency file, 23 synthetic frequency vectors incl. two whose EOF code word is all zeros, so that input ending between two symbols decodes to EOF): all compressor inputs of length <=2, for the built-in and shipped tables every pair of symbols followed by one of 8 third symbols, every length 0..4096 x 4 content classes, every byte value repeated 1..64; all decompressor inputs of length <=2 (<=3 thorough) x every output capacity 0..8n+2 between canaries, every prefix / one-byte extension / byte substitution of valid streams; oracle: round trip for both output forms, the convenience wrappers (compress, compress_into, compress_into_vec, decompress, decompress_into, decompress_into_vec) agree with the buffer API, exact predicted lengths, byte identity with the C++ reference, equality with the reference whenever it decodes, capacity errors exactly when the output does not fit, a growable buffer used again after a call on it failed for lack of space behaves as if the failed call had not happened, no write past the buffer, termination (watchdog)",
         true,
     );
 }
